@@ -63,7 +63,9 @@ def _analyse(ctx, trace, imm):
     d = trace[0]
     if is_imm(d[2], imm):
         return []
+    from .base import owner_of
     dfn, dstmt = ctx.p.stmt_at(d[-1])
+    dfn = owner_of(ctx.p, dfn)
     out = []
     for e in trace[1:]:
         if e[0] == "W2":
@@ -71,6 +73,7 @@ def _analyse(ctx, trace, imm):
         if e[0] == "MR" and ("/._dict" in e[1] or e[1].startswith("setitem:") and "/._list" in e[1]):
             continue    # KeyedList/KeyedSet keep a key index next to the items: see C13.COH / C13.AT for these steps
         fn, stmt = ctx.p.stmt_at(e[-1])
+        fn = owner_of(ctx.p, fn)
         kind = {"R": "raise", "RR": "re-raise", "UR": "user callback raises", "MR": "primitive may raise",
                 "U": "user callback / constructor call"}[e[0]]
         out.append({"key": f"C04.AT|{'+'.join(d[3])}|{dfn}|{dstmt}|then:{e[0]}|{fn}|{stmt}",
